@@ -446,7 +446,11 @@ func (f *DefaultFanController) calculateTargetPwm() (int, error) {
 	fan := f.fan
 	target, err := f.curve.Evaluate()
 	if err != nil {
-		ui.Fatal("Unable to calculate optimal PWM value for %s: %v", fan.GetId(), err)
+		// f.ex. a sensor that could not be read; this must not take down the whole
+		// daemon (and with it the control of all other fans), so keep regulating
+		// with the last known good value of the curve
+		ui.Warning("Unable to calculate optimal PWM value for %s, using last known curve value: %v", fan.GetId(), err)
+		target = f.curve.CurrentValue()
 	}
 
 	// the control loop operates on the scale of the curve (0..255), so its "current" value
